@@ -34,6 +34,15 @@ class G:
         if calls and k < 0.25:
             name, arity = r.choice(calls)
             return ("call", ("name", name), [self.num_expr(nums, depth - 1) for _ in range(arity)])
+        if r.random() < 0.12:
+            # a built-in function: a free name of the logic that no requirement binds
+            b = r.choice(["abs", "floor", "max", "min", "sum", "count"])
+            x, y = self.num_expr(nums, depth - 1), self.num_expr(nums, depth - 1)
+            if b in ("abs", "floor"):
+                return ("call", ("name", b), [x])
+            if b in ("max", "min"):
+                return ("call", ("name", b), [x, y])
+            return ("call", ("name", b), [("list", [x, y])])
         if k < 0.75:
             return (r.choice(["add", "sub", "mul"]), self.num_expr(nums, depth - 1, calls), self.num_expr(nums, depth - 1, calls))
         if k < 0.9:
@@ -502,6 +511,32 @@ def _names(e):
     return out
 
 
+BUILTINS = ("abs", "floor", "max", "min", "sum", "count")
+
+
+def builtin(name, args):
+    """the few built-in functions the generated logic calls, on numbers only (anything else: not decided here, C08's subject)"""
+    import decimal
+
+    flat = args[0] if name in ("sum", "count") and len(args) == 1 and isinstance(args[0], list) else args
+    if name == "count":
+        return Decimal(len(flat))
+    if not flat or not all(isinstance(a, Decimal) for a in flat):
+        raise rfeel.Undecided("built-in over non-numbers")
+    if name == "abs":
+        return flat[0].copy_abs()
+    if name == "floor":
+        return flat[0].to_integral_value(rounding=decimal.ROUND_FLOOR)
+    if name == "max":
+        return max(flat)
+    if name == "min":
+        return min(flat)
+    acc = flat[0]
+    for a in flat[1:]:
+        acc = rfeel.arith("add", acc, a)
+    return acc
+
+
 def eval_context(entries, result, env):
     frame = {}
     env2 = env + [frame]
@@ -536,6 +571,8 @@ def ev(e, env):
             inputs[i] = ref.coerce_input(ty, frame.get(i))
         supplied = {x: frame.get(x) for x in s["input_decisions"]}
         return ref.service(s, inputs, supplied)
+    if t == "call" and e[1][0] == "name" and e[1][1] in BUILTINS and rfeel.lookup(env, e[1][1]) is None:
+        return builtin(e[1][1], [ev(a, env) for a in e[2]])
     if t in ("call", "callnamed"):
         # evaluate with this extended evaluator so that synthetic bodies work
         f = ev(e[1], env)
